@@ -182,6 +182,24 @@ func toIdentRefList(base []*meta.Identity, v interface{}) (val.IdentRefList, err
 			refs = append(refs, ref)
 		}
 		return refs, nil
+	case val.IdentRefList:
+		// what a node was given to store for such a leaf-list
+		return toIdentRefList(base, x.Labels())
+	case []interface{}:
+		// decoded JSON array
+		var refs []val.IdentRef
+		for _, item := range x {
+			s, isString := item.(string)
+			if !isString {
+				return nil, fmt.Errorf("could not coerce '%v' into identref", item)
+			}
+			ref, err := toIdentRef(base, s)
+			if err != nil {
+				return nil, err
+			}
+			refs = append(refs, ref)
+		}
+		return refs, nil
 	}
 	return nil, fmt.Errorf("could not coerce '%v' into identref list", v)
 }
@@ -309,6 +327,18 @@ func toBitsList(bitDefintions []*meta.Bit, v interface{}) (val.BitsList, error) 
 		return toBitsListHandler(bitDefintions, x)
 	case []float64: // default type for decimals from JSON parser
 		return toBitsListHandler(bitDefintions, x)
+	case val.BitsList:
+		return toBitsListHandler(bitDefintions, x.Positions())
+	case []interface{}:
+		// decoded JSON array
+		result := make([]val.Bits, len(x))
+		var err error
+		for i, item := range x {
+			if result[i], err = toBits(bitDefintions, item); err != nil {
+				return nil, err
+			}
+		}
+		return result, nil
 	}
 	return nil, fmt.Errorf("could not coerce %v into BitList", v)
 }
